@@ -1269,7 +1269,7 @@ func (g *gen) sharedCounter() string {
 		}
 		fmt.Fprintf(&s, "rec.E(%d, %s(), %s)\n", g.Ev(), get, c)
 	}
-	fmt.Fprintf(&s, "rec.E(%d, %s(), %s())\n", g.Ev(), nest, get)
+	fmt.Fprintf(&s, "%s()\nrec.E(%d, %s(), %s())\n", inc, g.Ev(), nest, get)
 	return s.String()
 }
 
@@ -1291,7 +1291,7 @@ func generate(t *rapid.T, px string, avoid map[string]bool) gobatch.Program {
 	var mid []string // statements without a read-after-burn part
 	nscen := g.Int(2, 6, "nscenarios")
 	for i := 0; i < nscen; i++ {
-		switch g.Pick(14, "scenario") {
+		switch g.Pick(17, "scenario") {
 		case 0, 1, 2:
 			g.escapeClosure()
 		case 3, 4:
